@@ -667,8 +667,17 @@ def run_conversion_case(dcmstack, case):
     if case.get('queries'):
         obs['q'] = run_queries(dcmstack, case, den)
     if 'vo2' in case and obs.get('err') is None:
-        dss2 = [build_ds(f) for f in case['files']]
-        st2, wid2, img2, err2, calls2 = run_to_nifti(dcmstack, case, False, None, vo=case['vo2'], datasets=dss2)
+        if len(case['files']) % 2 == 0 and st is not None:
+            # second use of the SAME stack object (it has just been converted with the case's own voxel order): the
+            # conversion under test must not depend on that earlier call (wave-5 seed C02_eseed1); odd-sized cases use a fresh stack
+            img2, err2 = None, None
+            try:
+                img2 = call_to_nifti(st, case['vo2'], False)
+            except Exception as e:
+                err2 = ERRMAP.get(type(e).__name__, 'ECrash:' + type(e).__name__)
+        else:
+            dss2 = [build_ds(f) for f in case['files']]
+            st2, wid2, img2, err2, calls2 = run_to_nifti(dcmstack, case, False, None, vo=case['vo2'], datasets=dss2)
         obs['alt'] = {} if err2 is None else {'err': err2}
         if img2 is not None:
             try:
